@@ -73,23 +73,7 @@ Proof.
     + inversion H; subst. eapply only_mono; [|eapply write_c_only; eauto]. intros x [Hx|[]]. left. exact Hx.
 Qed.
 
-(* ------------------------------------------------------------------ set_ with every intermediate node present *)
-Fixpoint parents_exist (h : heap) (n : nat) (p : path) : bool :=
-  match p with
-  | [] => true
-  | [_] => true
-  | k :: p' =>
-      match get_node h n with
-      | None => true
-      | Some nd =>
-          match ents_get (nents nd) k with
-          | Some (RNode m) => parents_exist h m p'
-          | Some (RLeaf _) => true
-          | None => false
-          end
-      end
-  end.
-
+(* ------------------------------------------------------------------ set_ *)
 Lemma set_str_true_frame : forall upd h n k val h' o,
   set_str upd h n k val ITrue = (h', o) -> inplace_frame h h'.
 Proof.
@@ -103,21 +87,22 @@ Proof.
 Qed.
 
 Lemma set_tuple_true_frame : forall upd p h n val h' o,
-  parents_exist h n p = true -> set_tuple upd h n p val ITrue = (h', o) -> inplace_frame h h'.
+  set_tuple upd h n p val ITrue = (h', o) -> inplace_frame h h'.
 Proof.
-  induction p as [|k p IH]; intros h n val h' o Hp H.
+  induction p as [|k p IH]; intros h n val h' o H.
   - cbn in H. inversion H; subst. apply frame_refl.
   - destruct p as [|k2 p2].
     + cbn in H. eapply set_str_true_frame; eauto.
-    + cbn [set_tuple] in H. cbn [parents_exist] in Hp.
+    + cbn [set_tuple] in H.
       destruct (get_node h n); [|inversion H; subst; apply frame_refl].
-      destruct (ents_get (nents n0) k) as [[d|m]|]; [inversion H; subst; apply frame_refl| |discriminate].
-      eapply IH; eauto.
+      destruct (ents_get (nents n0) k) as [[d|m]|].
+      * inversion H; subst. apply frame_refl.
+      * eapply IH; eauto.
+      * (* the repaired branch: a missing intermediate node is a missing key *)
+        unfold fixed_D75, is_true in H. cbn [andb] in H. inversion H; subst. apply frame_refl.
 Qed.
 
 (* ------------------------------------------------------------------ the in-place class *)
-Definition is_setu (i : instr) : bool := match i with ISetU _ _ _ => true | _ => false end.
-
 Local Arguments write_c : simpl never.
 Local Arguments write_list : simpl never.
 Local Arguments update_u : simpl never.
@@ -128,25 +113,22 @@ Ltac frame_solve :=
   match goal with
   | |- inplace_frame _ (fst ?x) =>
       let E := fresh "E" in destruct x eqn:E; cbn;
-      first [eapply update_u_frame; eassumption | eapply write_c_frame; eassumption | eapply write_list_frame; eassumption]
+      first [eapply update_u_frame; eassumption | eapply write_c_frame; eassumption | eapply write_list_frame; eassumption
+            | eapply set_tuple_true_frame; eassumption]
   end.
 
 Lemma step_inplace_frame : forall s i,
-  classify i = CInplace -> is_setu i = false ->
+  classify i = CInplace ->
   inplace_frame (hp s) (hp (fst (step s i))) /\ regs (fst (step s i)) = regs s.
 Proof.
-  intros s i Hc Hs. destruct i; cbn in Hc; try discriminate; try (destruct inpl; discriminate);
-    cbn in Hs; try discriminate; unfold step, reg; cbv zeta; frame_solve.
-Qed.
-
-Lemma step_setu_partial : forall s r p v n,
-  reg s r = Some (RNode n) -> parents_exist (hp s) n p = true ->
-  inplace_frame (hp s) (hp (fst (step s (ISetU r p v)))) /\ regs (fst (step s (ISetU r p v))) = regs s.
-Proof.
-  intros s r p v n Hr Hp. unfold step. rewrite Hr.
-  destruct (reg s v); cbn; [|split; [apply frame_refl|reflexivity]].
-  split; [|reflexivity].
-  destruct (set_tuple upd_best (hp s) n p r0 ITrue) eqn:E. eapply set_tuple_true_frame; eauto.
+  intros s i Hc. destruct i; cbn in Hc; try discriminate; try (destruct inpl; discriminate);
+    unfold step, reg; cbv zeta.
+  1: { (* ISetU *)
+    destruct (nth_error (regs s) r) as [[v0|n]|]; try (split; [apply frame_refl|reflexivity]).
+    destruct (nth_error (regs s) v) as [val|]; [|split; [apply frame_refl|reflexivity]].
+    split; [|reflexivity]. destruct (set_tuple upd_best (hp s) n p val ITrue) as [h' o] eqn:E.
+    cbn [fst snd hp with_h]. eapply set_tuple_true_frame; eauto. }
+  all: frame_solve.
 Qed.
 
 (* ------------------------------------------------------------------ allocation only appends *)
@@ -236,7 +218,7 @@ Proof.
       destruct (ents_get (nents n0) k) as [[d|m]|].
       * now inversion H.
       * eapply IH; eauto.
-      * unfold alloc_node in H. cbv beta iota zeta in H.
+      * unfold fixed_D75, is_true in H. cbn [andb] in H. unfold alloc_node in H. cbv beta iota zeta in H.
         destruct (bind _ n k _) as [h2 [|e]] eqn:Eb.
         -- apply bind_stor in Eb. cbn [hstor] in Eb. rewrite <- Eb.
            exact (IH h2 (List.length (hnodes h)) val h' o H).
@@ -348,28 +330,24 @@ Proof.
 Qed.
 
 Lemma run_inplace : forall prog s,
-  forallb (fun i => match classify i with CInplace => negb (is_setu i) | _ => false end) prog = true ->
+  forallb (fun i => match classify i with CInplace => true | _ => false end) prog = true ->
   inplace_frame (hp s) (hp (run s prog)) /\ regs (run s prog) = regs s.
 Proof.
   induction prog as [|i t IH]; intros s H; cbn in *.
   - split; [apply frame_refl|reflexivity].
   - apply andb_true_iff in H. destruct H as [H1 H2].
-    destruct (classify i) eqn:Ec; try discriminate. apply negb_true_iff in H1.
-    destruct (step_inplace_frame s i Ec H1) as [F R]. destruct (IH (fst (step s i)) H2) as [F2 R2].
+    destruct (classify i) eqn:Ec; try discriminate.
+    destruct (step_inplace_frame s i Ec) as [F R]. destruct (IH (fst (step s i)) H2) as [F2 R2].
     split; [eapply frame_trans; eauto|congruence].
 Qed.
 
-(* ------------------------------------------------------------------ D75: set_ below a missing node *)
+(* ------------------------------------------------------------------ D75 (repaired): set_ below a missing node raises *)
 Definition d75_state : st :=
   mkSt (mkHeap [[1%Z; 2%Z]] [mkNode [("a"%string, RLeaf (mkView 0 [0; 1]))] false]) [RLeaf (mkView 0 [0; 1]); RNode 0].
 
-Lemma setu_refuted :
-  exists s r p v, classify (ISetU r p v) = CInplace /\ snd (step s (ISetU r p v)) = Done /\
-                  hnodes (hp (fst (step s (ISetU r p v)))) <> hnodes (hp s).
-Proof.
-  exists d75_state, 1, ["x"%string; "q"%string], 0. split; [reflexivity|]. split; [vm_compute; reflexivity|].
-  vm_compute. discriminate.
-Qed.
+Lemma setu_missing_node_raises :
+  step d75_state (ISetU 1 ["x"%string; "q"%string] 0) = (d75_state, Raised EKey).
+Proof. vm_compute. reflexivity. Qed.
 
 (* ------------------------------------------------------------------ footprint of the whole-tree in-place operations *)
 Definition leaf_sids (ls : list (path * view)) : list nat := map (fun pv => vsid (snd pv)) ls.
